@@ -37,6 +37,8 @@ pub struct Dlv17 {
     pub stdin: Option<String>,
     /// transparent read faults (short reads, EINTR): must not change anything
     pub faults: FaultSpec,
+    /// a parameter file with at least one key is delivered twice: its keys overlap with themselves
+    pub dup: bool,
 }
 
 fn step(argv: &[String], stdin: &Option<String>, root: &str) -> Step {
@@ -213,6 +215,7 @@ impl C17 {
             }
             let mut mtimes = BTreeMap::new();
             let kind;
+            let mut dup = false;
             let mut dir_mode = "asc".to_string();
             if r.chance(1, 2) || scn.params.len() == 1 {
                 let p = r.perm(scn.params.len());
@@ -228,6 +231,16 @@ impl C17 {
                     }
                 }
                 kind = format!("args-{}", if structured { "structured" } else { "plain" });
+                if r.chance(1, 8) {
+                    // the same parameter file once more (only meaningful if it defines a key)
+                    let i = r.usize(scn.params.len());
+                    let nonempty = scn.files.iter().find(|f| f.rel == scn.params[i]).map(|f| f.bytes.iter().any(|b| *b == b':')).unwrap_or(false);
+                    if nonempty {
+                        argv.push("-i".into());
+                        argv.push(format!("@/{}", scn.params[i]));
+                        dup = true;
+                    }
+                }
             } else {
                 let flag = *r.pick(&["", "-a", "-m", "-m"]);
                 argv.push("-i".into());
@@ -251,7 +264,7 @@ impl C17 {
             argv.extend(tail);
             let kind = if stdin_mode { format!("stdin-{}", kind) } else { kind };
             let faults = if r.chance(1, 2) { FaultSpec::Random { seed: r.next(), rates: RatesSpec { read_short: *r.pick(&[64u8, 160, 250]), read_eintr: *r.pick(&[0u8, 40]), write_short: 60, write_eintr: 10, max_short: 1 + r.below(40) as u32, ..Default::default() } } } else { FaultSpec::Off };
-            out.push(Dlv17 { kind, argv, dir_mode, dir_seed: r.next(), mtimes, stdin: if stdin_mode { Some("@/data/d0.json".into()) } else { None }, faults });
+            out.push(Dlv17 { kind, argv, dir_mode, dir_seed: r.next(), mtimes, stdin: if stdin_mode { Some("@/data/d0.json".into()) } else { None }, faults, dup });
         }
         out
     }
@@ -277,11 +290,23 @@ impl C17 {
         }
         rep.classes.push(format!("{}|{}|{}", d.kind, if scn.overlap { "overlap" } else { "disjoint" }, c));
         rep.count("judged", 1);
+        if d.dup && !scn.overlap {
+            rep.count("reach.duplicate_parameter_file", 1);
+            if c == "exit:0" || c == "exit:19" {
+                return Some((format!("{}/duplicate-accepted", d.kind), format!("a parameter file was given twice (its keys overlap with themselves) but `{}` exited with {}", d.argv.join(" ").replace("@/", ""), c)));
+            }
+            return None;
+        }
         if scn.overlap {
             rep.count("reach.overlap_delivered", 1);
             if c == "exit:0" || c == "exit:19" {
                 return Some((format!("{}/overlap-accepted", d.kind), format!("two sources define the same top-level key but `{}` exited with {}", d.argv.join(" ").replace("@/", ""), c)));
             }
+            return None;
+        }
+        if !(refc == "exit:0" || refc == "exit:19") && d.stdin.is_some() && scn.ndata > 1 {
+            // the reference covers both data files, stdin only the first: which one errs is unknown
+            rep.count("skipped.reference_error_with_stdin", 1);
             return None;
         }
         if !(refc == "exit:0" || refc == "exit:19") {
@@ -323,7 +348,7 @@ impl C17 {
 
     fn to_json(&self, scn: &Scn17, d: &Dlv17) -> Value {
         json!({"files": files_to_json(&scn.files), "params": scn.params, "overlap": scn.overlap, "ndata": scn.ndata,
-               "delivery": {"kind": d.kind, "argv": d.argv, "dir_mode": d.dir_mode, "dir_seed": d.dir_seed, "mtimes": d.mtimes, "stdin": d.stdin, "faults": serde_json::to_value(&d.faults).unwrap()}})
+               "delivery": {"kind": d.kind, "argv": d.argv, "dir_mode": d.dir_mode, "dir_seed": d.dir_seed, "mtimes": d.mtimes, "stdin": d.stdin, "faults": serde_json::to_value(&d.faults).unwrap(), "dup": d.dup}})
     }
 }
 
@@ -427,6 +452,7 @@ impl Check for C17 {
             mtimes: serde_json::from_value(dv.get("mtimes").cloned().unwrap_or(Value::Null)).unwrap_or_default(),
             stdin: dv.get("stdin").and_then(|s| s.as_str()).map(String::from),
             faults: serde_json::from_value(dv.get("faults").cloned().unwrap_or(Value::Null)).unwrap_or(FaultSpec::Off),
+            dup: dv.get("dup").and_then(|b| b.as_bool()).unwrap_or(false),
         };
         let mut rep = Report::default();
         self.check_one(w, &scn, &d, &mut rep).into_iter().map(|(sig, what)| Violation { signature: sig, what, replay: Value::Null, shrink_execs: 0, minimised: false }).collect()
